@@ -102,6 +102,9 @@ def snapshot_cases():
                              P(V("n")), P(A.Bin("==", V("acc"), S("aé✓"))), P(V("acc"))]
     cases["object_order"] = [A.Declare(V("o"), A.obj(("zz", I(1)), ("a", I(2)), ("M", I(3)), ("", I(4)), ("é", I(5)), ("a1", I(6)))),
                              A.For(V("kv"), V("o"), [P(V("kv"))])]
+    cases["for_range_pairs"] = [A.For(A.lst(V("k"), V("v")), A.Range(I(3), I(6)), [P(V("k")), P(V("v"))]),
+                                A.Declare(V("rg"), A.Range(I(-2), I(1))), A.For(V("kv"), V("rg"), [P(V("kv"))]),
+                                A.For(A.lst(V("k"), V("v")), A.RangeIndex(A.lst(I(7), I(8), I(9)), I(1), None), [P(V("k")), P(V("v"))])]
     cases["pair_is_fresh_list"] = [A.Declare(V("seen"), A.lst()),
                                    A.For(V("kv"), A.lst(S("p"), S("q")), [A.Assign(A.Index(V("kv"), I(0)), S("changed")), A.OpAssign("+", V("seen"), A.lst(V("kv")))]),
                                    P(V("seen"))]
